@@ -72,8 +72,9 @@ func specMentions(fs *FuncSpec, sf *SpecFile, p string) bool {
 }
 
 // verifyRoot generates all obligations for one function under contract.
-func verifyRoot(ld *Loaded, sf *SpecFile, fn *ssa.Function, fs *FuncSpec, prop string) (e *Eng) {
+func verifyRoot(ld *Loaded, sf *SpecFile, fn *ssa.Function, fs *FuncSpec, prop string, modelIDs map[int]bool) (e *Eng) {
 	e = NewEng(ld, sf)
+	e.modelIDs = modelIDs
 	e.sc.prelude.WriteString(goDivPrelude)
 	e.rootFn = fn
 	e.propSel = prop
@@ -146,7 +147,7 @@ func verifyRoot(ld *Loaded, sf *SpecFile, fn *ssa.Function, fs *FuncSpec, prop s
 			e.oblige("post", en.Label, en.Props, fn.Pos(), outG, t)
 		}
 		for _, s := range fs.Sites {
-			if s.Hits == 0 {
+			if e.siteHits[s] == 0 {
 				e.errf("site clause %s (at %s %s) matched no site in %s", s.Clause.Label, s.Kind, s.Callee, fs.Key)
 			}
 		}
@@ -180,8 +181,9 @@ func allProps(fs *FuncSpec) []string {
 	return out
 }
 
-func verifyLemma(ld *Loaded, sf *SpecFile, lm *LemmaDef, prop string) *Eng {
+func verifyLemma(ld *Loaded, sf *SpecFile, lm *LemmaDef, prop string, modelIDs map[int]bool) *Eng {
 	e := NewEng(ld, sf)
+	e.modelIDs = modelIDs
 	e.sc.prelude.WriteString(goDivPrelude)
 	e.propSel = prop
 	defer func() {
@@ -289,13 +291,13 @@ func runAll(ld *Loaded, sf *SpecFile, opt *Options, only string) []*FuncResult {
 			var e *Eng
 			genSem <- struct{}{}
 			if j.lm != nil {
-				e = verifyLemma(ld, sf, j.lm, opt.prop)
+				e = verifyLemma(ld, sf, j.lm, opt.prop, nil)
 			} else if j.fn == nil {
 				fr.Errs = append(fr.Errs, fmt.Sprintf("contract target %s not found in package (renamed or removed?)", j.key))
 				<-genSem
 				return
 			} else {
-				e = verifyRoot(ld, sf, j.fn, j.fs, opt.prop)
+				e = verifyRoot(ld, sf, j.fn, j.fs, opt.prop, nil)
 			}
 			<-genSem
 			fr.Obls = e.obls
@@ -341,17 +343,11 @@ func getModels(ld *Loaded, sf *SpecFile, fn *ssa.Function, fs *FuncSpec, lm *Lem
 		want[id] = true
 	}
 	var e *Eng
-	modelIDs = want
-	defer func() { modelIDs = nil }()
-	modelMu.Lock()
-	defer modelMu.Unlock()
-	modelIDs = want
 	if lm != nil {
-		e = verifyLemma(ld, sf, lm, opt.prop)
+		e = verifyLemma(ld, sf, lm, opt.prop, want)
 	} else {
-		e = verifyRoot(ld, sf, fn, fs, opt.prop)
+		e = verifyRoot(ld, sf, fn, fs, opt.prop, want)
 	}
-	modelIDs = nil
 	runs := solveScript(dir, "model_"+e.rootNameOr("lemma"), e.sc, opt.perQuery, 120*time.Second, []string{"z3-5", "z3-4"}, nil)
 	for _, r := range runs {
 		for id, m := range r.Models {
@@ -362,8 +358,6 @@ func getModels(ld *Loaded, sf *SpecFile, fn *ssa.Function, fs *FuncSpec, lm *Lem
 	}
 }
 
-var modelIDs map[int]bool
-var modelMu sync.Mutex
 
 func fnUsesLock(ld *Loaded, fnK string, lockKey string) bool {
 	fn := ld.funcs[fnK]
